@@ -5,10 +5,11 @@ import (
 )
 
 // NALBody fills b (in place) so that it contains no start-code emulation
-// (no 00 00 0x with x <= 3) and does not end in 00.
+// (no 00 00 0x with x <= 2) and does not end in 00. 00 00 03 (the emulation
+// prevention sequence every real encoder emits) does occur.
 func NALBody(r *fw.Rand, b []byte) {
 	r.Fill(b)
-	// favour the bytes start-code scanners care about, without ever forming 00 00 0x (x <= 3): single zeros followed
+	// favour the bytes start-code scanners care about, without ever forming 00 00 0x (x <= 2): single zeros followed
 	// by 01/02/03 (e.g. "40 00 01") are perfectly legal NAL content
 	for i := range b {
 		switch r.Intn(24) {
@@ -21,7 +22,7 @@ func NALBody(r *fw.Rand, b []byte) {
 		}
 	}
 	for i := range b {
-		if i >= 2 && b[i-2] == 0 && b[i-1] == 0 && b[i] < 4 {
+		if i >= 2 && b[i-2] == 0 && b[i-1] == 0 && b[i] < 3 {
 			b[i] = 0x40 | b[i]
 		}
 	}
